@@ -5,6 +5,7 @@ import (
 	"fmt"
 	"os"
 	"strconv"
+	"strings"
 	"sync/atomic"
 	"testing"
 	"time"
@@ -52,6 +53,56 @@ func lifeFamily(prop, name string, weight int, gen func(*RNG) *SrvPlan, online f
 			return p, err
 		},
 	}
+}
+
+// registerC19 wraps the listed families: same plans, same runs, but the verdict is the race detector's and the pool tracker's.
+func registerC19() {
+	for _, src := range c19Sources {
+		base := familyByName(src.prop, src.name)
+		if base == nil {
+			panic("c19: no family " + src.prop + "/" + src.name)
+		}
+		register(&Family{Prop: "C19", Name: "c19:" + src.name, Weight: src.weight,
+			Gen: base.Gen,
+			Run: func(plan any, tape *Tape, ss uint64) *RunResult {
+				res := base.Run(plan, tape, ss)
+				res.Property = "C19"
+				res.Family = "c19:" + base.Name
+				res.Viol, res.Extra = nil, nil
+				if res.Stuck != "" && !strings.HasPrefix(res.Stuck, "run crashed") {
+					res.Stuck = "" // budget exhaustion of a wrapped run is not C19's business
+				}
+				vs := append(poolViolations(res), newRaceViolations()...)
+				if sp, ok := plan.(*SrvPlan); ok && hasPriorityOp(sp) {
+					// PRIORITY frames on ids without an open request allocate stray stream entries (C08/C13 known finding);
+					// what the pool tracker then sees is a consequence of that and is keyed separately
+					for _, v := range vs {
+						if strings.HasPrefix(v.Sig, "pool-") {
+							v.Sig = "with-priority/" + v.Sig
+						}
+					}
+				}
+				if len(vs) > 0 {
+					res.Viol = vs[0]
+					res.Extra = vs[1:]
+				}
+				res.Nontrivial = res.Switches > 10
+				return res
+			},
+			Decode: base.Decode,
+		})
+	}
+}
+
+func hasPriorityOp(p *SrvPlan) bool {
+	for _, l := range p.Lanes {
+		for _, op := range l.Ops {
+			if op.Kind == "priority" {
+				return true
+			}
+		}
+	}
+	return false
 }
 
 func cliFamily(prop, name string, weight int, gen func(*RNG) *CliPlan, online func(*CliWorld) *Violation, final func(*CliWorld) *Violation, post func(*CliWorld, *RunResult)) *Family {
@@ -137,6 +188,7 @@ func init() {
 		func(w *SrvWorld, r *RunResult) { r.Nontrivial = c09Nontrivial(w) }))
 	register(srvFamily("C06", "c06", 1, GenC06, c06Online, c06Final,
 		func(w *SrvWorld, r *RunResult) { r.Nontrivial = c06Nontrivial(w) }))
+	registerC19()
 }
 
 // Replay is the on-disk form of one run.
